@@ -5,7 +5,7 @@ rc=0
 for f in specs/*/*.tla; do
   d=$(dirname "$f"); b=$(basename "$f")
   case "$d" in specs/lib) continue;; esac
-  out=$(cd "$d" && java -DTLA-Library=/verif/specs/lib -cp /opt/veriftools/tla/tla2tools.jar:/opt/veriftools/tla/CommunityModules-deps.jar tla2sany.SANY "$b" 2>&1)
+  out=$(cd "$d" && java -DTLA-Library=$(ls -d /verif/specs/*/ | tr "\n" ":") -cp /opt/veriftools/tla/tla2tools.jar:/opt/veriftools/tla/CommunityModules-deps.jar tla2sany.SANY "$b" 2>&1)
   if echo "$out" | grep -q -e "Errors:" -e "Fatal error" -e "Could not"; then echo "SANY FAILED: $f"; echo "$out" | tail -15; rc=1; fi
 done
 PYTHONDONTWRITEBYTECODE=1 /venv/bin/python -m compileall -q harness >/dev/null || rc=1
